@@ -73,7 +73,8 @@ def gen_bool(rng, depth):
             # two comparisons in a row without parentheses (accepted by the validator: a truth value counts as a number
             # there): operators of equal rank associate to the left, `0 < x < 10` is `(0 < x) < 10`
             op2 = rng.choice(["<", "<=", ">", ">="])
-            return ("bin", op2, ("bin", rng.choice(["<", "<=", ">", ">="]), gen_num(rng, 0), gen_num(rng, 0)), gen_num(rng, 0))
+            # ("chain": the left comparison is written without parentheses)
+            return ("bin", op2, ("bin", rng.choice(["<", "<=", ">", ">="]), gen_num(rng, 0), gen_num(rng, 0)), gen_num(rng, 0), "chain")
         if op in ("==", "!=") and rng.random() < 0.3:
             return ("bin", op, gen_bool(rng, 0), gen_bool(rng, 0))
         return ("bin", op, gen_num(rng, depth - 1), gen_num(rng, depth - 1))
@@ -122,7 +123,7 @@ def print_min(e, tight=False):
     op, l, r = e[1], e[2], e[3]
     lt, rt = print_min(l, tight), print_min(r, tight)
     rk = RANK[op]
-    if (l[0] == "not" and rk >= 3) or (l[0] == "bin" and RANK[l[1]] < rk) or (l[0] == "bin" and RANK[l[1]] == 3 and rk == 3):
+    if (l[0] == "not" and rk >= 3) or (l[0] == "bin" and RANK[l[1]] < rk) or (l[0] == "bin" and RANK[l[1]] == 3 and rk == 3 and not (len(e) > 4 and e[4] == "chain")):
         lt = "(" + lt + ")"
     if r[0] == "not" and rk >= 3:
         rt = "(" + rt + ")"
@@ -156,7 +157,7 @@ def explicit_tree(e, tight, counter):
     op, l, r = e[1], e[2], e[3]
     rk = RANK[op]
     lt = explicit_tree(l, tight, counter)
-    if (l[0] == "not" and rk >= 3) or (l[0] == "bin" and RANK[l[1]] < rk) or (l[0] == "bin" and RANK[l[1]] == 3 and rk == 3):
+    if (l[0] == "not" and rk >= 3) or (l[0] == "bin" and RANK[l[1]] < rk) or (l[0] == "bin" and RANK[l[1]] == 3 and rk == 3 and not (len(e) > 4 and e[4] == "chain")):
         lt = par(lt)
     rt = explicit_tree(r, tight, counter)
     if r[0] == "not" and rk >= 3:
